@@ -43,6 +43,11 @@ CLAIMED = {
             "bounded model checking, inductive step over the selector tree (filter scope): the placeholder filter is a sound three-valued algebra — a list is a union, a compound an "
             "intersection, :not() a complement, a placeholder matches nothing, `everything` is never kept as an empty selector — and Rule::write emits nothing for `nothing` and only the "
             "filtered selectors otherwise; collect_pos / collect_neg for every sequence of up to 3 elements; selector parsing, nesting and printing are outside"),
+    "C40": ("E2", "symbolic execution of the rsass-cli binary's Args::run, main and From<StyleArg> (MIR of the binary crate, dumped per run) and of FsLoader::push_path; "
+            "library calls and stdout are forking stubs; path feasibility decided by z3 and cvc5",
+            "bounded model checking (wrapper scope): for 0..2 inputs and every outcome of opening, compiling and writing, each input in order goes through for_path, push_path(--load-path) "
+            "if given, with_format(Format{--style, --precision}), transform, and exactly the bytes returned go to stdout; the first failure ends the run with Err, which main turns into "
+            "`Error: …` on stderr and a failure exit code, Ok into exit 0; --load-path is appended after the input file's directory; clap's parsing is covered by native probes only"),
     "C06": ("E2", "symbolic execution of the closures' MIR, obligations decided by z3 and cvc5",
             "bounded model checking (sequential scope): one inductive step of unique-id() from an arbitrary counter state; random($limit) in "
             "[1,limit] for every limit; concurrency is outside the claim"),
@@ -117,7 +122,6 @@ NOT_APPLICABLE = {
     "C27": "CssString::unquote/Display and the parser's escape handling rebuild Strings char by char (CBMC: OOM at 18 GB on 3-byte strings)",
     "C30": "decided by the calc grammar in the nom parser",
     "C35": "metamorphic relation between two parses of rewritten sources: parser",
-    "C40": "the CLI process",
 }
 
 
